@@ -49,10 +49,10 @@ def claims(pid, op, kind, wf):
     if op == "hang":
         return True          # a DOM call that did not return within 20 s, whichever property is being checked
     if pid == "C09":
-        return wf == "illformed" or op in ("walk", "transfer_within_bad") or \
+        return wf == "illformed" or op in ("walk", "transfer_within_bad", "insert_collide") or \
             (kind == "struct" and op in ("destroy", "transfer"))
     if pid == "C10":
-        return kind == "struct" and op in ("new", "insert", "destroy", "transfer", "transfer_within", "setref")
+        return kind == "struct" and op in ("new", "insert", "insert_collide", "destroy", "transfer", "transfer_within", "setref")
     if pid == "C11":
         return op == "clone" and kind == "struct"
     if pid == "C12":
